@@ -287,9 +287,11 @@ def gen_sweep_case(run_seed: int, tier: str, j: int) -> dict[str, Any]:
     base["plaintext"] = False
     o2 = dict(base) if w.random() < 0.6 else dict(corpus.gen_options(w, allow_plaintext=False), plaintext=False)
     threads = [[{"api": "reformat_text", "text": docs[0], "kw": base}], [{"api": "reformat_text", "text": docs[1], "kw": o2}]]
-    gran = ["call", "return"][(j // 2) % 2]
-    policy = {"kind": "sweep", "x": j % 2, "site_number": j // 4, "seed": w.getrandbits(32)}
-    est = sum(len(d) for d in docs) * (5 if gran == "call" else 10)
+    # call / return / line (line events only in flowmark's formats/ and linewrapping/: a window
+    # between two lines of one function has no call event inside it)
+    gran = ["call", "return", "line"][(j // 2) % 3]
+    policy = {"kind": "sweep", "x": j % 2, "site_number": j // 6, "seed": w.getrandbits(32)}
+    est = sum(len(d) for d in docs) * {"call": 5, "return": 10, "line": 20}[gran]
     return {"check": CHECK, "run_seed": run_seed, "shape": "site_sweep", "epochs": [{"threads": threads}], "policy": policy, "faults": [], "granularity": gran, "est_steps": est, "step_cap": 0}
 
 
@@ -485,20 +487,55 @@ def _resolve_targeted(env: Env, case: dict[str, Any], ep_index: int, threads: li
     return {"kind": "targeted_named", "x": x, "y": y, "site_name": s.site_names[site - 1], "k": k, "m": m, "dry_steps": len(trace)}
 
 
-def _dry_run(env: Env, case: dict[str, Any], calls: list[dict[str, Any]]) -> sched.Scheduler:
-    s = sched.Scheduler(sched.Policy(), [], case["granularity"], 10**9, env.roots, env.caches)
-    s.site_trace = {}
+class _DryResult:
+    def __init__(self, trace: list[Any], names: list[str]) -> None:
+        self.site_trace = {0: trace}
+        self.site_names = names
 
-    def body(sc: sched.Scheduler, tid: int, tracer: Any) -> None:
-        for c in calls:
-            sys.settrace(tracer)
-            try:
-                outcome_of(c)
-            finally:
-                sys.settrace(None)
 
-    s.run_epoch([body])
-    return s
+def _dry_run(env: Env, case: dict[str, Any], calls: list[dict[str, Any]], trace_subs: bool = False) -> Any:
+    """
+    Solo traced execution of `calls` to learn the yield-site sequence - in a FORKED child, so that
+    the run's own process stays cold (a dry run in-process would warm every lazily initialised or
+    lazily grown global, and first-use races could never be scheduled).
+    """
+    r, w = os.pipe()
+    pid = os.fork()
+    if pid == 0:
+        try:
+            os.close(r)
+            s = sched.Scheduler(sched.Policy(), [], case["granularity"], 10**9, env.roots, env.caches)
+            s.site_trace = {}
+            s.trace_subs = trace_subs
+
+            def body(sc: sched.Scheduler, tid: int, tracer: Any) -> None:
+                for c in calls:
+                    sys.settrace(tracer)
+                    try:
+                        outcome_of(c)
+                    finally:
+                        sys.settrace(None)
+
+            s.run_epoch([body])
+            data = pickle.dumps((s.site_trace.get(0, []), s.site_names))
+            off = 0
+            while off < len(data):
+                off += os.write(w, data[off : off + 65536])
+        finally:
+            os._exit(0)
+    os.close(w)
+    buf = b""
+    while True:
+        chunk = os.read(r, 1 << 16)
+        if not chunk:
+            break
+        buf += chunk
+    os.close(r)
+    os.waitpid(pid, 0)
+    if not buf:
+        return _DryResult([], [])
+    trace, names = pickle.loads(buf)
+    return _DryResult(trace, names)
 
 
 def _resolve_sweep(env: Env, case: dict[str, Any], threads: list[list[dict[str, Any]]], pol: dict[str, Any]) -> dict[str, Any]:
@@ -507,13 +544,16 @@ def _resolve_sweep(env: Env, case: dict[str, Any], threads: list[list[dict[str, 
 
     x = pol["x"] % len(threads)
     y = 1 - x if len(threads) == 2 else (x + 1) % len(threads)
-    s = _dry_run(env, case, threads[x])
+    by_line = case["granularity"] == "line"
+    s = _dry_run(env, case, threads[x], trace_subs=by_line)
     assert s.site_trace is not None
     trace = s.site_trace.get(0, [])
+    if by_line:
+        trace = [t for t in trace if t[1] > 0]  # line events only (call events are swept in 'call' mode)
     if not trace:
         return {"kind": "none"}
-    distinct: list[int] = []
-    seen: set[int] = set()
+    distinct: list[Any] = []
+    seen: set[Any] = set()
     for st in trace:
         if st not in seen:
             seen.add(st)
@@ -528,6 +568,8 @@ def _resolve_sweep(env: Env, case: dict[str, Any], threads: list[list[dict[str, 
     lap = n // len(distinct)
     count = trace.count(site)
     k = 1 if lap == 0 else random.Random(pol["seed"]).randint(1, count)
+    if by_line:
+        return {"kind": "targeted_named", "x": x, "y": y, "site_name": s.site_names[site[0] - 1], "line": site[1], "k": k, "m": 10**9, "dry_steps": len(trace), "distinct_sites": len(distinct)}
     return {"kind": "targeted_named", "x": x, "y": y, "site_name": s.site_names[site - 1], "k": k, "m": 10**9, "dry_steps": len(trace), "distinct_sites": len(distinct)}
 
 
@@ -542,7 +584,7 @@ class TargetedNamed(sched.Policy):
         d = self.d
         assert self.sched is not None
         if self.back_at is None:
-            if tid == d["x"] and self.sched.site_names[site - 1] == d["site_name"]:
+            if tid == d["x"] and self.sched.site_names[site - 1] == d["site_name"] and ("line" not in d or self.sched.cur_sub == d["line"]):
                 self.count += 1
                 if self.count == d["k"] and ready:
                     self.back_at = step + d["m"]
@@ -615,11 +657,8 @@ def run_case(env: Env, case: dict[str, Any], want_trace: bool = False) -> dict[s
         # controller, quiescent point between epochs
         threads = case["epochs"][ep_i]["threads"]
         live = [th for th in threads if th]
-        if per_epoch is None and str(ep_i) in dry_replay and dry_replay[str(ep_i)] < len(threads):
-            # replay of a targeted run with an explicit schedule: repeat the same solo dry run,
-            # it is part of the history
-            _dry_run(env, case, threads[dry_replay[str(ep_i)]])
-            dry_done[str(ep_i)] = dry_replay[str(ep_i)]
+        # (dry runs happen in forked children and leave no trace in this process, so a replay
+        # with an explicit schedule needs none)
         if per_epoch is not None:
             if len(live) > 1:
                 td = _resolve_sweep(env, case, threads, pol_desc) if pol_desc["kind"] == "sweep" else _resolve_targeted(env, case, ep_i, threads, pol_desc["seed"])
@@ -701,7 +740,7 @@ def run_case(env: Env, case: dict[str, Any], want_trace: bool = False) -> dict[s
         "phase_overlap": sorted(f"{a}|{b}" for a, b in s.phase_overlap),
         "preempt_pairs": sorted({digest([s.site_names[a - 1] if a else "", s.site_names[b - 1] if b else ""], 10) for a, b in s.preempt_pairs}),
         "sites": len(s.site_names),
-        "swept_sites": sorted({f"{case['granularity']}:{td['x']}:{td['site_name']}" for td in resolved_targets if td.get("kind") == "targeted_named" and pol_desc["kind"] == "sweep"}),
+        "swept_sites": sorted({f"{case['granularity']}:{td['x']}:{td['site_name']}:{td.get('line', '')}" for td in resolved_targets if td.get("kind") == "targeted_named" and pol_desc["kind"] == "sweep"}),
     }
     if want_trace or verdict != "ok":
         res["switches"] = [list(x) for x in s.switches]
